@@ -2,6 +2,8 @@
 
 package client
 
+import "github.com/smallnest/rpcx/internal/verifhook"
+
 // Exported aliases of unexported constructors, for the verification harness only.
 
 func VerifNewSelector(mode SelectMode, servers map[string]string) Selector {
@@ -37,4 +39,9 @@ func VerifSelectorOrder(s Selector) []string {
 		}
 	}
 	return out
+}
+
+// VerifSetHook installs the callback invoked at the instrumentation points (internal/verifhook).
+func VerifSetHook(f func(point string, args ...interface{})) {
+	verifhook.Set(f)
 }
